@@ -232,6 +232,7 @@ def pick_op(rng, spec, ids, selections):
 
 
 PROFILE_SWITCHES = [0]
+TWIN_ADDRS: set = set()  # addresses of the graphs of re-wired twins seen so far in this process (evidence of address re-use)
 
 
 def _flag_spelling(rng, b):
@@ -491,6 +492,35 @@ def job_sched(j):
             if sp.get("run_debug"):
                 op = {"kind": "call"}
                 col.counters["cases_with_debug_nodes_switched_on"] += 1
+            pre_ex = None
+            if op.get("kind") == "executor" and not sp.get("nest") and rng.random() < 0.2:
+                # the executor is created FIRST, then some nodes are made (non-)sequential by a reload that names nothing else, then
+                # the executor runs: it schedules the DAG as it is configured when it runs
+                uses_ = {}
+                for nd_ in sp["nodes"]:
+                    uses_[nd_["fn"]] = uses_.get(nd_["fn"], 0) + 1
+                tags_ = {fs_.get("tag") for fs_ in sp["fns"].values()}
+                named_ = [q for q, nd_ in enumerate(sp["nodes"]) if uses_[nd_["fn"]] == 1 and ids[q] not in tags_ and rng.random() < 0.5]
+                if named_:
+                    kw_ = {k_: op[k_] for k_ in ("target_nodes", "exclude_nodes", "root_nodes") if op.get(k_) is not None}
+                    try:
+                        pre_ex = d.executor(**S.spell_selections(kw_))
+                    except BaseException as e:  # noqa: BLE001
+                        if isinstance(e, (KeyboardInterrupt, SystemExit)):
+                            raise
+                        pre_ex = None
+                    if pre_ex is not None:
+                        import copy as _copy
+
+                        sp = _copy.deepcopy(sp)
+                        conf_ = {}
+                        for q in named_:
+                            v_ = rng.random() < 0.6
+                            sp["fns"][sp["nodes"][q]["fn"]]["is_sequential"] = v_
+                            conf_[ids[q]] = {"is_sequential": v_}
+                        d.config_from_dict({"nodes": conf_})
+                        sp.setdefault("history", []).append(["executor created, then config_from_dict", conf_, "then the executor is run"])
+                        col.counters["executors_created_before_a_reload_of_is_sequential"] += 1
             faults = []
             if j.get("faults") and op.get("kind") != "setup" and not sset and rng.random() < j.get("fault_rate", 1.0):
                 k = 1 if rng.random() < 0.7 else 2
@@ -507,7 +537,7 @@ def job_sched(j):
             _cfg.TAWAZI_PROFILE_ALL_NODES = prof
             try:
                 case = sched.run_case(sp, op=op, args=args, faults=faults, controlled=(mode == "ctl"), d=d, plain=plain,
-                                      pre_values=pre_values, fault_base=fault_base)
+                                      pre_values=pre_values, fault_base=fault_base, executor=pre_ex)
             finally:
                 _cfg.TAWAZI_PROFILE_ALL_NODES = old_prof
             if sset and case["res"][0] == "ok":
@@ -520,6 +550,45 @@ def job_sched(j):
                 col.counters["cases_with_profiling_on"] += 1
             case["located"] = located
             eval_case(col, case, mode)
+        if located and not sset and not sp.get("nest") and not sp.get("run_debug") and rng.random() < 0.2:
+            # a RE-WIRED twin: the same call sites, names and options with one dependency taken from another producer, built right
+            # after the first DAG was dropped (a pipeline re-built from edited source in one process): ids are the same, edges not
+            import copy as _copy
+            import gc
+
+            sp2 = _copy.deepcopy(sp)
+            cands = []
+            for i2, nd2 in enumerate(sp2["nodes"]):
+                for a2 in nd2["args"]:
+                    if a2[0] == "n" and not a2[2]:
+                        same_kind = [q for q in range(i2) if q != a2[1] and sp2["fns"][sp2["nodes"][q]["fn"]].get("shape") == sp2["fns"][sp2["nodes"][a2[1]]["fn"]].get("shape")
+                                     and not any(x[0] == "n" and x[1] == q for x in list(nd2["args"]) + list(nd2["kwargs"].values()))]
+                        if same_kind:
+                            cands.append((a2, same_kind))
+            sp2.pop("history", None)
+            d = None
+            case = None
+            for _round in range(5 if cands else 0):
+                # (several edits in a row: each DAG is dropped before the next one is built)
+                a2, opts = rng.choice(cands)
+                a2[1] = rng.choice(opts)
+                d2 = case2 = None
+                gc.collect()
+                try:
+                    d2, _env2, plain2 = S.build_tawazi(sp2, plain=plain0)
+                except BaseException as e:  # noqa: BLE001
+                    if isinstance(e, (KeyboardInterrupt, SystemExit)):
+                        raise
+                    col.counters["rewired_twin_build_error:%s" % type(e).__name__] += 1
+                    break
+                if id(d2.graph_ids) in TWIN_ADDRS:
+                    col.counters["rewired_twins_whose_graph_took_the_address_of_a_dropped_one"] += 1
+                TWIN_ADDRS.add(id(d2.graph_ids))
+                case2 = sched.run_case(_copy.deepcopy(sp2), op={"kind": "call"}, args=[Sym("arg", rng.randrange(1 << 30))], faults=[], controlled=(mode == "ctl"), d=d2, plain=plain2)
+                case2["located"] = True
+                col.counters["rewired_twins_built_after_the_first_dag_was_dropped"] += 1
+                eval_case(col, case2, mode)
+                case2["dag"] = None
     return col.result()
 
 
